@@ -72,6 +72,8 @@ class SimSocket:
                 raise PeerClosed('connection closed by server, nothing left to read')
             if spins >= self.net.max_spin:
                 raise WouldBlock(f'no data after {spins} ticks of {self.net.tick}s')
+            if self.net.deadline is not None and self.net.reactor.seconds() > self.net.deadline:
+                raise WouldBlock('virtual deadline of the blocking call passed')
             spins += 1
             self.net.waits += 1
             self.net.reactor.advance(self.net.tick)
@@ -98,6 +100,7 @@ class Net:
         self.tick = 1.0
         self.max_spin = 40
         self.recv_max = None
+        self.deadline = None  # virtual time after which a blocking recv gives up
         self.chunker = None  # callable(bytes) -> iterable of chunks
         self.conns = []
         self.on_lost = []
